@@ -169,7 +169,7 @@ SetBridgeInfo_R(s, e) == [id |-> e.info.id, addr |-> e.info.addr, chain |-> e.in
 ----------------------------------------------------------------------------
 (* parameter / fee-pool / batched execution                                  *)
 NVals(s) == s.nvals       \* number of validator records (validator-set behaviour is specified in ValSet.tla)
-ParamsValid(p) == ValidAddr(p.admin) /\ (\A i \in 1..Len(p.execs) : ValidAddr(p.execs[i])) /\ p.maxVals > 0
+ParamsValid(p) == ValidAddr(p.admin) /\ (\A i \in 1..Len(p.execs) : ValidAddr(p.execs[i])) /\ p.maxVals > 0 /\ (\A i \in 1..Len(p.fw) : ValidAddr(p.fw[i]))
 UpdateParams_G(s, e) ==
   [ valid     |-> ValidAddr(e.signer) /\ ParamsValid(e.params),
     authority |-> e.signer = Authority,
